@@ -582,13 +582,56 @@ def run(c):
                                 {"kind": "gran", "q": q, "p": pgran, "rows": rows, "routed_sql": sql_r[:800], "differing": [x for x in rr if x not in rb][:4]})
                 else:
                     c.violation("_is_granularity_compatible(%r, %r) admits a pair that is not calendar-nested" % (q, pgran), {"kind": "gran", "q": q, "p": pgran}, found_input=False)
+    stats["fill_routed"] = fill_family(c)
     c.obligation("oracle: routed rows == base rows and every routing decision exactly derivable (%d routed of %d queries)" % (stats["routed"], len(cases)), not c.violations, "correspondence")
-    evals += len(cases)
+    evals += len(cases) + stats["fill_routed"]
     c.coverage.update({"evaluations": evals, "distinct_nontrivial": nontrivial,
                        "rule": "single model with 1-3 random rollups (1-6 of 14 measures: sum/count/count(col)/min/max/avg/count_distinct/median/stddev/filtered/expression; 0-2 dimensions; time dimension at hour..month or none) "
                                "x tables of 0-40 rows with multi-row buckets, NULLs x queries (1-3 metrics, 0-3 dimensions incl. the time dimension at day..year or bare, 0-2 filters of 13 syntactic forms on rollup and "
                                "non-rollup columns and on the raw timestamp); non-trivial = routed, equal, more than one row",
                        "traces_validated_against_impl": stats["routed"], "distribution": stats, "exhaustive": False})
+
+
+def fill_family(c):
+    """measures that declare fill_nulls_with, stored in a rollup finer than the query, with buckets in which the measure is entirely NULL: whatever the rollup stores
+    for such a bucket, the coarser routed answer must equal the base answer (a default stored per bucket would enter MIN / MAX / SUM of the merged buckets)"""
+    import random
+    from sidemantic import Dimension, Metric, Model, PreAggregation
+    rng = random.Random(c.seed * 29 + 8)          # a stream of its own
+    n = 0
+    for k in range(6 if c.tier == "quick" else 60):
+        L = dbutil.fresh_layer()
+        L.conn.execute("create table ev(id bigint, ts timestamp, g1 varchar, v bigint)")
+        rows, i = [], 0
+        for day in rng.sample(range(1, 28), rng.choice([4, 6, 8])):
+            null_bucket = rng.random() < 0.4
+            for _ in range(rng.choice([1, 2, 3])):
+                i += 1
+                rows.append((i, datetime.datetime(2024, rng.choice([1, 1, 2]), day, rng.choice([0, 9, 23])), rng.choice(["a", "b"]), None if null_bucket else rng.choice([25, 40, 65, -5, 3])))
+        L.conn.executemany("insert into ev values (?,?,?,?)", rows)
+        fills = {"mn_f": ("min", rng.choice([0, 7])), "mx_f": ("max", rng.choice([0, 1000])), "rev_f": ("sum", rng.choice([0, 7])), "cnt_f": ("count", 0)}
+        pa = PreAggregation(name="r", measures=sorted(fills), dimensions=["g1"], time_dimension="ts", granularity="day")
+        m = Model(name="ev", table="ev", primary_key="id", dimensions=[Dimension(name="ts", type="time", sql="ts", granularity="hour"), Dimension(name="g1", type="categorical")],
+                  metrics=[Metric(name=nm, agg=a, sql=(None if a == "count" else "v"), fill_nulls_with=f) for nm, (a, f) in fills.items()], pre_aggregations=[pa])
+        L.add_model(m)
+        L.conn.execute("create table %s as %s" % (pa.get_table_name("ev"), pa.generate_materialization_sql(m)))
+        for dims in (["ev.ts__month"], ["ev.g1"], ["ev.ts__day", "ev.g1"], [], ["ev.ts__year", "ev.g1"]):
+            for mets in (["ev.mn_f"], ["ev.mx_f", "ev.rev_f"], ["ev.cnt_f", "ev.mn_f"]):
+                kw = dict(metrics=mets, dimensions=dims)
+                sr = L.compile(use_preaggregations=True, **kw)
+                if "used_preagg=true" not in sr:
+                    continue
+                n += 1
+                try:
+                    rr = dbutil.canon_rows(L.conn.execute(sr).fetchall())
+                except Exception as e:
+                    rr = "error: %s" % str(e)[:150]
+                rb = dbutil.canon_rows(L.conn.execute(L.compile(use_preaggregations=False, **kw)).fetchall())
+                if rr != rb:
+                    c.violation("a query over measures with fill_nulls_with is routed to a rollup and returns other rows than the base table",
+                                {"kind": "fill", "rows": [[r[0], str(r[1]), r[2], r[3]] for r in rows], "fills": {k_: list(v_) for k_, v_ in fills.items()}, "dims": dims, "metrics": mets,
+                                 "routed_rows": str(rr)[:400], "base_rows": str(rb)[:400], "routed_sql": sr[-700:]})
+    return n
 
 
 def empty_count(case, res):
